@@ -21,7 +21,7 @@ var specs = map[string]*propSpec{
 		Rule: "one run = one generated document, one way of obtaining a concurrently-readable node (Searcher{ConcurrentRead} at root or sub-path, NewRawConcurrentRead, NewRaw+Load/LoadAll, child of one of these), 2-5 reader clients x 1-8 documented read operations biased towards one shared still-raw path, executed under the seeded scheduler (statement-level yields in ast/*.go, shim RWMutex); non-trivial = more context switches than clients (readers really overlapped); distinct = distinct trace hash (every scheduling decision + yield site + draw)",
 		Assume: []string{
 			"code between two yield points is atomic for the scheduler; torn intra-statement accesses are left to the race detector (race flavour), which sees no happens-before edge from the scheduler's futex hand-off",
-			"reference = the same reads executed sequentially on a private clone built the same way",
+			"reference = the same reads executed sequentially on a private clone built the same way; on malformed text (where the answer depends on what was parsed before) the recorded history must be linearizable with respect to that single-threaded implementation, or at least every read must be explainable by some single-threaded run of reads invoked before it returned; search budgets (3000 / 2000 clone replays) make a history inconclusive, never a violation",
 			"only operations documented as concurrently safe are issued",
 		},
 		Batches: []batch{
@@ -33,13 +33,14 @@ var specs = map[string]*propSpec{
 		ID:   "C09",
 		Rule: "one run = one history of 3-16 calls (Marshal, Unmarshal, Pretouch, PretouchMany with values and pointers, compile options MaxInlineDepth 1-3 / RecursiveDepth 0-3) by one client over a universe of 2-8 fresh dynamic types (thorough: occasionally 40-100) plus static types incl. pairs of distinct types that print identically (a/types.T vs b/types.T, function-local T's) and a recursive type; knobs and faults from the tape: program-cache capacities 2..4096 (rehash and probe wrap-around with a handful of types), permutation of every Go map iteration in the compile/batch-load paths, pool hit/miss decisions; every history is distinct by construction (fresh types), non-trivial = every run (each executes a generated history against process-global caches)",
 		Assume: []string{
-			"reference = encoding/json on the value subset of DESIGN Appendix B; a deviation is a violation only if the same single call with emptied caches (no history) agrees with the reference, otherwise it is counted as generator drift (C01/C03 material)",
+			"reference = the call itself without history: every Marshal/Unmarshal of the history is re-executed after emptying the program caches and pools and must give the same result; one tape-chosen call per two runs is also re-executed by a fresh process of the worker binary that rebuilds types and operations from the same tape (state the resets do not know about); encoding/json (value subset of DESIGN Appendix B) only counts suspects",
+			"per-call option sets (4 encoder, 6 decoder configurations), near-twin types whose JSON names differ only in letter case, structs of 47-54 fields around the codecs' inlining threshold",
 			"the loader's module list and JIT pages are never reset inside a process (they are part of the history on purpose)",
 		},
 		Batches: []batch{
-			{Name: "history", Flavour: "plain", Quick: 4000, Thorough: 200000, PerProc: 100, Progress: true, TimeoutS: 900},
-			{Name: "history-optdec", Flavour: "plain", Env: []string{"SONIC_USE_OPTDEC=1"}, Quick: 800, Thorough: 60000, PerProc: 100, Progress: true, TimeoutS: 900},
-			{Name: "history-vm-encoder", Flavour: "plain", Env: []string{"SONIC_ENCODER_USE_VM=1"}, Quick: 800, Thorough: 60000, PerProc: 100, Progress: true, TimeoutS: 900},
+			{Name: "history", Flavour: "plain", Quick: 2400, Thorough: 200000, PerProc: 100, Progress: true, TimeoutS: 900},
+			{Name: "history-optdec", Flavour: "plain", Env: []string{"SONIC_USE_OPTDEC=1"}, Quick: 600, Thorough: 60000, PerProc: 100, Progress: true, TimeoutS: 900},
+			{Name: "history-vm-encoder", Flavour: "plain", Env: []string{"SONIC_ENCODER_USE_VM=1"}, Quick: 600, Thorough: 60000, PerProc: 100, Progress: true, TimeoutS: 900},
 		},
 	},
 	"C10": {
@@ -50,6 +51,8 @@ var specs = map[string]*propSpec{
 			"encoder boundaries immediately before a `save` opcode are exempt, exactly as in upstream's own debug_instr (a fresh object lives only in a register there and no real collection can happen)",
 			"the C10 build flavour carries one extra call per opcode; the instruction stream between the calls is the shipped one",
 			"background-cycle progress is decided by the Go runtime (GOMAXPROCS=1): that fault kind replays best-effort, all others exactly",
+			"a third of the runs Pretouch their types first (batch-loaded multi-function modules instead of one module per program)",
+			"a fifth of the runs end with the write-barrier round: a value decoded once is hidden behind a 300k-node shuffled list, a collection is started on another goroutine, and once the mark phase is on and this goroutine's stack has been scanned a second document is decoded into the same value (pointer, map, interface, slice, []byte, string, quoted, nested and fixed-array fields; null / empty / longer replacements) while the OLD field values are held on the stack only; afterwards they must be intact (clobberfree) - the collector itself is not single-stepped, the round only guarantees 'mark phase on during the decode' (probe counted)",
 		},
 		Batches: []batch{
 			{Name: "events", Flavour: "c10", Env: []string{"GODEBUG=clobberfree=1,asyncpreemptoff=1", "GOMAXPROCS=1"}, Quick: 4000, Thorough: 150000, PerProc: 120, Progress: true, TimeoutS: 900},
@@ -61,16 +64,17 @@ var specs = map[string]*propSpec{
 		Rule: "one run = one history of 3-14 calls by one client: Encode/EncodeIndented/Marshal under option sets (EscapeHTML/ValidateString exercise the pooled buffer swap), EncodeInto a caller buffer whose geometry comes from the tape (prefix 0-32, capacity around/below/above the output size, junk in the spare capacity, capacity ending at a PROT_NONE guard page or followed by canaries), Node.MarshalJSON/Raw on raw/lazy/loaded/mutated nodes, Unmarshal([]byte), Decoder+CopyString, Get([]byte), stream Decode into RawMessage; after every call the caller scribbles over its input buffer and every result returned so far is compared with the private snapshot taken when it was returned; seeded pools poison spare capacity on Put; knobs: LimitBufferSize 0..1MiB with output sizes on both sides, Default{Encoder,Ast,Decoder}BufferSize 1..4096, pool miss rate; all histories distinct (fresh types), non-trivial = every run",
 		Assume: []string{
 			"only the stated direction is checked: sonic must not change bytes it returned or the caller's input; a caller writing into a returned slice is not part of the statement",
-			"reference for 'does not depend on the buffer / pool state' = the same value encoded by sonic immediately before in the same process",
+			"reference for 'does not depend on the buffer / pool state' = the same value encoded by sonic with the pools set aside (emptied for the reference call and put back exactly afterwards), so the reference neither depends on nor disturbs the history",
+			"decodes go into interface{}, generated types and a struct with quoted/numbered/raw/pointer/map/slice destinations, under option sets, through Unmarshal([]byte) (3 entry points) and CopyString (3 entry points)",
 		},
 		Batches: []batch{
-			{Name: "history", Flavour: "plain", Quick: 60000, Thorough: 3000000, PerProc: 2000, Progress: true, TimeoutS: 600},
-			{Name: "history-optdec+vm", Flavour: "plain", Env: []string{"SONIC_USE_OPTDEC=1", "SONIC_ENCODER_USE_VM=1"}, Quick: 20000, Thorough: 1000000, PerProc: 2000, Progress: true, TimeoutS: 600},
+			{Name: "history", Flavour: "plain", Quick: 40000, Thorough: 3000000, PerProc: 2000, Progress: true, TimeoutS: 600},
+			{Name: "history-optdec+vm", Flavour: "plain", Env: []string{"SONIC_USE_OPTDEC=1", "SONIC_ENCODER_USE_VM=1"}, Quick: 12000, Thorough: 1000000, PerProc: 2000, Progress: true, TimeoutS: 600},
 		},
 	},
 	"C05": {
 		ID:   "C05",
-		Rule: "one run = one input (fragment such as a literal prefix / open string / dangling escape / lone surrogate / number tail, valid document, truncation, length pinned to 15..129 around the SIMD block sizes, string payload) x one of 23 parsing, scanning, quoting, validating entry points, evaluated in three placements chosen by the simulator: heap copy, arena with an unmapped PROT_NONE page immediately after the last input byte, arena with 1-48 bytes of a plausible continuation (rue / ull / quote / digits / closers / high bytes ...) after it; the three results (value, error text, position) must be identical and the process must survive; non-trivial = non-empty input; distinct = distinct trace hash (entry point x input)",
+		Rule: "one run = one input (fragment such as a literal prefix / open string / dangling escape / lone surrogate / number tail, valid document, truncation, length pinned to 15..129 around the SIMD block sizes, string payload, documents for typed destinations with base64 / quoted numbers / ,string fields cut anywhere) x one of 45 entry points (parsing, scanning, quoting, validating; decoding into typed destinations; ENCODING of strings, map keys, quoted fields, json.Number, []byte and RawMessage placed in memory like an input; optdec additionally with the pooled parser's buffer capacity, leftovers and node-buffer size drawn per call), evaluated in three placements chosen by the simulator: heap copy, arena with an unmapped PROT_NONE page immediately after the last input byte, arena with 1-48 bytes of a plausible continuation (rue / ull / quote / digits / closers / high bytes ...) after it; the three results (value, error text, position) must be identical and the process must survive; non-trivial = non-empty input; distinct = distinct trace hash (entry point x input)",
 		Assume: []string{
 			"no schedule is involved: the simulated component is memory placement (DESIGN 3, C05 caveat)",
 			"a touched guard page kills the worker; the run is attributed through a context record written before every call",
@@ -95,7 +99,7 @@ var specs = map[string]*propSpec{
 	},
 	"C08": {
 		ID:   "C08",
-		Rule: "one run = 1-4 fresh dynamic types (reflect.StructOf etc., never seen by the process: first-use compilation happens inside the run) + callback types that yield mid-encode/mid-decode, 2-6 clients x 1-6 API calls (Marshal, MarshalString, MarshalIndent, EncodeInto, Unmarshal, UnmarshalString, Valid, Get, Pretouch with compile options), several clients sharing one type, program-cache capacity 2..4096 and pool hit/miss/steal decisions from the tape, injected callback panics in a quarter of the runs; non-trivial = more context switches than clients; distinct = distinct trace hash",
+		Rule: "one run = 1-4 fresh dynamic types (reflect.StructOf etc., never seen by the process: first-use compilation happens inside the run) + callback types that yield mid-encode/mid-decode, 2-6 clients x 1-6 API calls (Marshal, MarshalString, MarshalIndent, EncodeInto, Unmarshal, UnmarshalString, Valid, Get, Pretouch with compile options), several clients sharing one type, injected callback panics and callback errors (calls hit by them are exempt from comparison, all others are compared), bursts of 150-1650 failing decodes, program-cache capacity 2..4096 and pool hit/miss/steal decisions from the tape, injected callback panics in a quarter of the runs; non-trivial = more context switches than clients; distinct = distinct trace hash",
 		Assume: []string{
 			"generated machine code and native routines are atomic blocks for the scheduler except where they call back into Go (callbacks yield); races inside them are invisible to the race detector",
 			"reference = the same call executed alone after the run (the property's wording) and encoding/json inside the value subset of DESIGN Appendix B; a disagreement with encoding/json that the solo call shares is counted (harness_ref_disagrees_with_solo), not reported: it is C01/C03 material",
